@@ -815,11 +815,12 @@ package wire
 //@   ensures [fresh-map] err == nil ==> fresh(val(ctxval(ret0, 1)))
 //@   ensures [err-kind] err != nil ==> !isExceeded(err)
 //@   ensures [out-silent] OutSame() && #rawN == old(#rawN)
+//@   ensures [window] Advanced(reader.Msg, old(reader.Msg))
 //@   atreturn [ctx-carries-meta] {C12} err == nil ==> ctxval(ret0, 1) == box(meta)
 //@   modifies reader.Msg
 //@   loop 0
 //@     invariant [own-map] meta != nil && meta > old(#alloc)
-//@     invariant [window] arr(reader.Msg) == arr(old(reader.Msg)) && off(reader.Msg) >= off(old(reader.Msg)) && end(reader.Msg) == end(old(reader.Msg))
+//@     invariant [window] Advanced(reader.Msg, old(reader.Msg))
 //@     decreases len(reader.Msg)
 
 //@ func (*Server).writeParameters
@@ -862,7 +863,7 @@ package wire
 //@   ensures [N-cancel-error] {C12} (err == nil && #rawN > old(#rawN) && #rawLast == 'N') ==> ret2 != 80877102
 //@   ensures [reader-ok] err == nil ==> (ret0 != nil && ReaderOK(ret1))
 //@   ensures [window] Advanced(reader.Msg, old(reader.Msg)) || arr(reader.Msg) > old(#alloc)
-//@   ensures [new-window] ret1 != reader ==> (ret1.Msg == nil || arr(ret1.Msg) > old(#alloc))
+//@   ensures [new-window] ret1 != reader ==> (fresh(ret1) && fresh(ret1.Buffer) && (ret1.Msg == nil || arr(ret1.Msg) > old(#alloc)))
 //@   ensures [out-silent] OutSame()
 //@   callsite (*wire.Server).readVersion [reads-upgraded] {C11} $reader == reader
 //@   modifies reader.Buffer.#pos, arrayof(reader.header), reader.Msg, memtail(reader.Msg), #maxalloc, #nalloc, #rawN, #rawLast, #rawConn
@@ -876,6 +877,7 @@ package wire
 //@   ensures [cancel-before-ssl] {C12} (err == nil && version == 80877102 && #rawN == old(#rawN)) ==> ret0 == conn
 //@   ensures [no-cancel-after-N] {C12} (err == nil && #rawN > old(#rawN) && #rawLast == 'N') ==> version != 80877102
 //@   ensures [at-most-one-raw] #rawN <= old(#rawN) + 1
+//@   ensures [fresh-reader] {C15 C11} reader != nil ==> (fresh(reader) && fresh(reader.Buffer) && (reader.Msg == nil || arr(reader.Msg) > old(#alloc)))
 //@   ensures [out-silent] OutSame()
 //@   modifies #maxalloc, #nalloc, #rawN, #rawLast, #rawConn
 
@@ -883,9 +885,10 @@ package wire
 //@   props C01 C12 C04
 //@   requires srv != nil && ctx != nil && WriterReady(writer) && ReaderOK(reader)
 //@   ensures [no-strategy-ok] {C01} (srv.Auth == nil && ret1 == nil) ==> #nAuthOk == old(#nAuthOk) + 1
-//@   ensures [ctx] ret1 == nil ==> ret0 != nil
+//@   ensures [ctx] ret1 == nil ==> (ret0 != nil && CtxInherits(ret0, ctx))
 //@   ensures [no-Z] #nZ == old(#nZ)
 //@   ensures [ok] ReaderOK(reader) && WriterReady(writer)
+//@   ensures [window] Advanced(reader.Msg, old(reader.Msg)) || arr(reader.Msg) > old(#alloc)
 //@   ensures [gate] {C01} #nAccept == old(#nAccept) + (ret1 == nil ? 1 : 0)
 //@   ghostset #nAccept = old(#nAccept) + 1 if ret1 == nil
 //@   modifies WriterState(writer), Out(), reader.Msg, reader.Buffer.#pos, arrayof(reader.header), memtail(reader.Msg), #nIn, #lastIn, #maxalloc, #nalloc, #authR, #nAuthOk, #nAccept, #nValidate, #validOK, #validErrNil
@@ -903,9 +906,10 @@ package wire
 //@   ensures [accept-only] {C01} err == nil ==> (#nValidate == old(#nValidate) + 1 && #validOK && #validErrNil)
 //@   ensures [authok-iff] {C01} #nAuthOk == old(#nAuthOk) + (err == nil ? 1 : 0)
 //@   ensures [reject-28] {C01} (#nValidate == old(#nValidate) + 1 && #validErrNil && !#validOK && !#failed) ==> (#nE == old(#nE) + 1 && #E_C == "28P01")
+//@   ensures [window] Advanced(reader.Msg, old(reader.Msg)) || arr(reader.Msg) > old(#alloc)
 //@   ensures [validate-at-most-once] #nValidate <= old(#nValidate) + 1
 //@   ensures [exceed-abort] {C10} true
-//@   ensures [ctx] err == nil ==> ret0 != nil
+//@   ensures [ctx] err == nil ==> (ret0 != nil && CtxInherits(ret0, ctx))
 //@   ensures [ok] ReaderOK(reader) && WriterReady(writer)
 //@   modifies WriterState(writer), Out(), reader.Msg, reader.Buffer.#pos, arrayof(reader.header), memtail(reader.Msg), #nIn, #lastIn, #maxalloc, #nalloc, #authR, #nAuthOk, #nValidate, #validOK, #validErrNil
 
@@ -913,7 +917,7 @@ package wire
 
 //@ func (*Server).serve
 //@   props C01 C11 C12 C19 C07 C15 C04
-//@   requires srv != nil && conn != nil && ctx != nil && srv.types != nil && srv.Session != nil && srv.Statements != nil && srv.Portals != nil && srv.wg.#wgcnt >= 0
+//@   requires srv != nil && conn != nil && ctx != nil && each(srv.typeExtensions, f, f != nil) && srv.Session != nil && srv.Statements != nil && srv.Portals != nil && srv.wg.#wgcnt >= 0
 //@   requires [version-text] {C02} nulfree(srv.Version)
 //@   ensures [closes] {C01 C19} #connClosed >= old(#connClosed) + 1
 //@   callsite buffer.NewWriter [writer-on-upgraded] {C11} $writer == box(conn)
@@ -925,7 +929,7 @@ package wire
 //@   callsite callback:(*wire.Server).serve.srv.Statements [fresh-caches] {C07 C15} true
 //@   atreturn [cancel-silent] {C12} version == 80877102 ==> (OutSame() && #nParse == old(#nParse) && #nExec == old(#nExec) && #nSession == old(#nSession) && #nAccept == old(#nAccept) && #nValidate == old(#nValidate))
 //@   atreturn [no-session-without-auth] {C01} #nAccept == old(#nAccept) ==> (#nParse == old(#nParse) && #nExec == old(#nExec) && #nSession == old(#nSession) && #nZ == old(#nZ))
-//@   modifies everything
+//@   modifies ServeGhosts(), srv.wg.#wgcnt
 
 // ---- server construction and shutdown -----------------------------------------------------
 
@@ -1020,7 +1024,19 @@ package wire
 //@   props C04 C15
 //@   requires [captured] fn != nil
 //@   requires srv != nil
-//@   modifies srv.types.#memo
+//@   ensures result == nil
+//@   modifies srv.typeExtensions, memtail(srv.typeExtensions), #maxalloc, #nalloc
+
+// A type map per connection (C15): pgtype.Map memoises plans without synchronisation.
+//@ func (*Server).newTypeMap
+//@   props C15 C09 C04
+//@   requires srv != nil && each(srv.typeExtensions, f, f != nil)
+//@   ensures [fresh-per-connection] {C15} result != nil && fresh(result)
+//@   modifies nothing
+//@   loop 0
+//@     invariant [range] -1 <= $index && $index + 1 <= len(srv.typeExtensions) && types != nil && types > old(#alloc)
+//@     invariant [extensions-nonnil] each(srv.typeExtensions, f, f != nil)
+//@     decreases len(srv.typeExtensions) - $index
 
 //@ func WithColumns$1
 //@   props C04
